@@ -207,6 +207,10 @@ class ESSearch(ABC):
                     * self.scale
                 )
 
+        if us.shape[0] == 0:
+            # Every candidate was infeasible or filtered out: empty search set
+            return np.empty((0, nvars)), np.empty((0,))
+
         return us[0], z[0]
 
 
